@@ -146,13 +146,16 @@ def c05(F: Facts):
             done_at = oc.get(tag, oc.get(str(tag)))
             if done_at is not None:
                 end = min(end, done_at['at'])
+            suspended = set(F.open_awaits_at(b + 1))  # handlers already suspended in an await: only their cancellation can show up
             for r in F.tr[b + 1 : end]:
-                if r['k'] == 'enter' and not F.is_desc(r['ev'], tag):
+                active = r['k'] == 'enter' or (r['k'] in ('mark', 'cleanup-begin', 'cleanup-end') and 'h' in r)
+                if active and not F.is_desc(r['ev'], tag) and (r['bus'], r['ev'], r['h']) not in suspended and (r['bus'], r['ev'], r['h']) != tuple(me):
                     other = r['ev']
                     cq = min((idxs[0] for (bb, ev), idxs in F.enq.items() if ev == tag), default=None)
                     oq = min((idxs[0] for (bb, ev), idxs in F.enq.items() if ev == other and bb == r['bus']), default=None)
                     clause = 'C05.a' if (oq is not None and cq is not None and oq < cq) else 'C05.b'
-                    v.append((clause, f'handler {list(me)} awaited event {tag} from idx {b}; before it completed (idx {end}) handler h{r["h"]} started for unrelated event {other} on {r["bus"]} at idx {r["i"]} (unrelated enqueued at {oq}, awaited child at {cq})'))
+                    what = 'started' if r['k'] == 'enter' else f'was executing ({r["k"]})'
+                    v.append((clause, f'handler {list(me)} awaited event {tag} from idx {b}; before it completed (idx {end}) handler h{r["h"]} {what} for unrelated event {other} on {r["bus"]} at idx {r["i"]} (unrelated enqueued at {oq}, awaited child at {cq})'))
                     break
     return v
 
